@@ -496,7 +496,25 @@ pub fn fsm_declare(fsm_decl: &FsmDeclare, env: Option<&Environment>, p: &Interpr
 fn detach_variable_value(value: &Value) -> Value {
   match value {
     Value::MutableReference(reference) => reference.borrow().deep_clone(),
+    // A tuple, record, map or table written with variables as elements holds
+    // those variables' cells: the new variable gets the values instead.
+    container if holds_variable_reference(container) => container.deep_clone(),
     _ => value.clone(),
+  }
+}
+
+fn holds_variable_reference(value: &Value) -> bool {
+  let is_reference = |element: &Value| matches!(element, Value::MutableReference(_));
+  match value {
+    #[cfg(feature = "tuple")]
+    Value::Tuple(tuple) => tuple.borrow().elements.iter().any(|element| is_reference(element)),
+    #[cfg(feature = "record")]
+    Value::Record(record) => record.borrow().data.values().any(is_reference),
+    #[cfg(feature = "map")]
+    Value::Map(map) => map.borrow().map.values().any(is_reference),
+    #[cfg(feature = "table")]
+    Value::Table(table) => table.borrow().data.values().any(|(_, column)| column.as_vec().iter().any(is_reference)),
+    _ => false,
   }
 }
 
